@@ -38,7 +38,7 @@ JOBS["C20"] = [
 ]
 
 JOBS["C18"] = [
-    H("exhaustive", "store", "^TestC18Exhaustive$", {"shards": 6, "checks": 1, "timeout": 900, "env": {"VERIF_C18_L": 4}}, {"shards": 6, "checks": 1, "timeout": 3400, "env": {"VERIF_C18_L": 6}}),
+    H("exhaustive", "store", "^TestC18Exhaustive$", {"shards": 10, "checks": 1, "timeout": 900, "env": {"VERIF_C18_L": 4}}, {"shards": 10, "checks": 1, "timeout": 3400, "env": {"VERIF_C18_L": 6}}),
     H("random", "store", "^TestC18Random$", {"shards": 8, "checks": 2500, "timeout": 900}, {"shards": 14, "checks": 120000, "timeout": 3400}),
 ]
 
